@@ -397,7 +397,8 @@ func WithPredFallback(base *Flow, predKinds []string, maxMarked int) []*Flow {
 			for ti, c := range cur {
 				t := &f.Tasks[ti]
 				if c.fb {
-					if !t.Err || len(t.Out) == 0 {
+					// (a task without results takes the value-less cff.FallbackWith())
+					if !t.Err || (len(t.Out) == 0 && t.Invoke != "true") {
 						ok = false
 						break
 					}
